@@ -37,10 +37,10 @@ def run(R):
     cat = H.catalogue(R.tier)
     H.TYPES[:] = cat
     encode_sources(R)
-    pct = 120 if R.tier == 'quick' else 400
+    pct = 150 if R.tier == 'quick' else 400
     R.bounds = {'types': f'{len(cat)} types, depth <= 2', 'collections': 'length 0..2 (two length variables; the second <= 1 in quick)', 'ints': '32/64-bit ranges',
                 'floats': 'CrossHair reals + NaN, +inf, -inf as explicit cases', 'strings': 'symbolic choice among 3 fixed strings',
-                'calls': 'symbolic choice among 8 fixed calls (ploidy 0..2, phased/unphased, allele order)', 'structs': 'value field order is a symbolic permutation of the type field order (2-3 fields)', 'pool': 'positions of a value share a small pool of symbolic scalars',
+                'calls': 'symbolic choice among 10 fixed calls (ploidy 0..2, phased/unphased, allele order)', 'structs': 'value field order is a symbolic permutation of the type field order (2-3 fields)', 'pool': 'positions of a value share a small pool of symbolic scalars',
                 'ndarray': 'symbolic choice among concrete numpy arrays (C and F order, 1-3 dims); numeric element types only',
                 'per_condition_timeout_s': pct}
     R.assume('json.dumps/json.loads (C functions) are replaced by harness.C32_json.wire: tuples -> lists, JSON types only, '
